@@ -10,6 +10,9 @@ import (
 	"github.com/markkurossi/mpc/ot"
 	"github.com/markkurossi/mpc/sha2pc"
 
+	"github.com/markkurossi/mpc/env"
+
+	"verifharness/internal/otx"
 	"verifharness/internal/refc"
 	"verifharness/internal/vrt"
 )
@@ -147,7 +150,7 @@ func sha2pcField(r1len, off int) (string, int) {
 func init() {
 	vrt.Register(&vrt.Prop{
 		ID: "C04", Level: "exploration",
-		Rule: "case = one complete session in one of three modes: whole-circuit (circuit.Garbler over a recording tap; OT in {CO, COT, COT-malicious, RSA}), streaming (Compiler.Stream) or the sha2pc round protocol (EncodeRound1 || EncodeRound3 on four curves). " +
+		Rule: "case = one complete session in one of three modes (plus whole-circuit sessions against a scripted peer that asks the garbler to OT a different wire range than the evaluator's inputs): whole-circuit (circuit.Garbler over a recording tap; OT in {CO, COT, COT-malicious, RSA}), streaming (Compiler.Stream) or the sha2pc round protocol (EncodeRound1 || EncodeRound3 on four curves). " +
 			"R is obtained at an API boundary (xor of the two labels of the wires handed to ot.OT.Send; for sha2pc from two runs on identical randomness whose garbler inputs differ in one bit). " +
 			"Oracle (offline, linear): hash set of the 16-byte window at every byte offset of the complete garbler->evaluator transcript; violation iff R is a member, or some w and w xor R both are, or a label of a wire handed to OT.Send is a member; the witness offsets are mapped to the message field. Distinct = hash of the transcript; every session is non-trivial (R is random).",
 		Assumptions: []string{"the syntactic transcript property of the statement, not a simulation-based security argument", "a chance collision needs a 2^-128 event"},
@@ -174,6 +177,10 @@ func runC04(cs *vrt.Case) {
 	r := cs.Rng
 	switch cs.Idx % 6 {
 	case 0, 1, 2:
+		if cs.Idx%12 == 2 {
+			c04Deviating(cs, r)
+			return
+		}
 		c04Whole(cs, r)
 	case 3, 4:
 		c04Stream(cs, r)
@@ -202,6 +209,110 @@ func deltaOf(cs *vrt.Case, sent [][]ot.Wire, mode string) (ot.Label, bool) {
 		return R, false
 	}
 	return R, true
+}
+
+// c04Deviating plays the evaluator's side of the whole-circuit protocol by
+// hand and asks the garbler to OT a wire range other than the evaluator's
+// input wires ([n0, n0+n1)): overlapping the garbler's own input wires (whose
+// labels went out in the clear), shifted by one, longer, shorter, empty. The
+// garbler must refuse, or what it hands to OT.Send must stay disjoint from
+// what it sent in the clear.
+func c04Deviating(cs *vrt.Case, r *vrt.Rng) {
+	c, what := twoPartyCircuit(cs, r, cs.Idx/6, vrt.Pick(r, []int{10, 80}))
+	if c == nil {
+		return
+	}
+	n0, n1 := int(c.Inputs[0].Type.Bits), int(c.Inputs[1].Type.Bits)
+	type rng struct{ off, cnt int }
+	cands := []rng{{0, n1}, {0, n0}, {0, n0 + n1}, {n0 - 1, n1}, {n0 - 1, n1 + 1}, {1, n1}, {n0, n1 - 1}, {n0, 0}, {0, 1}, {n0 / 2, n1}}
+	q := cands[r.Intn(len(cands))]
+	if q.off < 0 || q.cnt < 0 || (q.off == n0 && q.cnt == n1) {
+		q = rng{0, n1}
+	}
+	x := r.Big(n0)
+	otk := r.Intn(2) // CO or COT
+	d := newDuplex(r, 2, true)
+	d.link.Watch(20*time.Second, 2)
+	gi, name := mkOT(r, otk)
+	ei, _ := mkOT(r, otk)
+	rec := &otx.Recorder{Inner: gi}
+	cfg := &env.Config{Rand: r.Fork()}
+	desc := map[string]any{"mode": "whole-circuit, deviating peer", "circuit": what, "ot": name, "x": x.Text(16), "asked_offset": q.off, "asked_count": q.cnt, "honest_offset": n0, "honest_count": n1}
+	cs.SetSample(desc)
+	var gerr error
+	g, e := runPair(d, func() error {
+		_, gerr = circuit.Garbler(cfg, d.connA, rec, c, x, false)
+		return nil
+	}, func() error {
+		conn := d.connB
+		if _, err := conn.ReceiveData(); err != nil {
+			return err
+		}
+		ng, err := conn.ReceiveUint32()
+		if err != nil {
+			return err
+		}
+		var l ot.Label
+		var ld ot.LabelData
+		for i := 0; i < ng; i++ {
+			k, err := conn.ReceiveUint32()
+			if err != nil {
+				return err
+			}
+			for j := 0; j < k; j++ {
+				if err := conn.ReceiveLabel(&l, &ld); err != nil {
+					return err
+				}
+			}
+		}
+		for i := 0; i < n0; i++ {
+			if err := conn.ReceiveLabel(&l, &ld); err != nil {
+				return err
+			}
+		}
+		if err := ei.InitReceiver(conn); err != nil {
+			return err
+		}
+		if err := conn.SendUint32(q.off); err != nil {
+			return err
+		}
+		if err := conn.SendUint32(q.cnt); err != nil {
+			return err
+		}
+		if err := conn.Flush(); err != nil {
+			return err
+		}
+		if q.cnt > 0 {
+			flags := make([]bool, q.cnt)
+			for i := range flags {
+				flags[i] = true
+			}
+			res := make([]ot.Label, q.cnt)
+			ei.Receive(flags, res) // fails when the garbler refused: fine
+		}
+		return nil // runPair closes the endpoint
+	})
+	d.link.Stop()
+	if pi := firstPanic(g, e); pi != nil {
+		if pi.InMPC {
+			cs.Violate("C04|deviating-peer|panic|"+pi.Frame, "panic while serving a deviating peer: "+pi.Value, map[string]any{"case": desc, "stack": pi.Stack})
+		} else {
+			cs.Inconc("harness panic: " + pi.Value + pi.Stack)
+		}
+		return
+	}
+	cs.Evals++
+	cs.Count("sessions_deviating_peer", 1)
+	t := d.link.Transcript(0)
+	cs.Keys = append(cs.Keys, vrt.HashBytes(t))
+	if len(rec.Sent) == 0 {
+		cs.Count("deviating_requests_refused", 1)
+		return
+	}
+	cs.Count("deviating_requests_served", 1)
+	if w, off, found := otLabelsInClear(t, rec.Sent); found {
+		cs.Violate("C04|whole|ot-wire-label-in-clear", fmt.Sprintf("asked to OT wires [%d,%d) instead of [%d,%d), the garbler (err=%v) handed OT.Send a wire (#%d of the batch) one of whose labels it had already sent in the clear at byte %d (%s)", q.off, q.off+q.cnt, n0, n0+n1, gerr, w, off, yaoField(c, off)), map[string]any{"case": desc})
+	}
 }
 
 func c04Whole(cs *vrt.Case, r *vrt.Rng) {
